@@ -286,12 +286,12 @@ func runC17(c *Ctx) {
 			c.CheckGuard("C17.G1", "resolve:suffix-equality", rr, nil, cmpReject("uniqueSuffix != op.UniqueSuffix rejected", token.NEQ, pathIs("$1"), pathIs(c.Path(pc, nil)+"#0.UniqueSuffix")))
 		}
 		// ResolveDocument: createReq == nil refused; suffix from >= 3 parts; same did string handed down
-		c.CheckGuard("C17.G1", "ResolveDocument:short-form-refused", resolve, nil, cmpReject("createReq == nil rejected", token.EQL, func(s string) bool { return strings.Contains(s, ".ParseDID(") && strings.HasSuffix(s, "#1") }, pathIs("nil")))
+		c.CheckGuard("C17.G1", "ResolveDocument:short-form-refused", resolve, nil, cmpReject("createReq == nil rejected", token.EQL, func(s string) bool { return strings.Contains(s, ".ParseDID[") && strings.HasSuffix(s, "#1") }, pathIs("nil")))
 		c.CheckGuard("C17.G1", "ResolveDocument:at-least-3-parts", resolve, nil, cmpReject("len(parts) < 3 rejected", token.LSS, func(s string) bool { return strings.HasPrefix(s, "len(strings.Split(") }, pathIs("3")))
 		okArgs := false
 		for _, cl := range callsTo(resolve, rr) {
 			a := declArgs(cl)
-			if len(a) == 4 && strings.Contains(c.Path(a[0], nil), ".ParseDID(") && c.Path(a[1], nil) == "$1" && strings.HasSuffix(c.Path(a[2], nil), "#1") {
+			if len(a) == 4 && strings.Contains(c.Path(a[0], nil), ".ParseDID[") && c.Path(a[1], nil) == "$1" && strings.HasSuffix(c.Path(a[2], nil), "#1") {
 				okArgs = true
 			}
 		}
